@@ -1,5 +1,1102 @@
+// Time-zone part of the simulated device: clients (TimeZone values of every kind) over shared
+// processors and zone managers with evicting caches, a durable TimeZoneData store, reboots.
+// Oracles: C08 (fresh-processor comparison, A.3), C16 (catalogue), C09 M2/M3 (error persistence,
+// pool monitors). Only the oracle of the profile's own property is armed.
 #include "tz.h"
+#include "clock.h"
+#include <AceTime.h>
+#include <new>
+
+#if ACE_TIME_VERIF_HOOKS
+extern "C" { unsigned long ace_time_verif_basic_dropped = 0; }
+#else
+static unsigned long ace_time_verif_basic_dropped = 0;
+#endif
+
 namespace sim {
-Trace genTz(const std::string& profile, uint64_t) { Trace t; t.profile = profile; return t; }
-bool execTz(const Trace&, Verdict&, Coverage&, bool&, Bitmap*) { return true; }
+
+using namespace ace_time;
+
+static const int kMaxClients = 8;
+static const int kMaxProcs = 3;
+static const int kMaxStore = 4;
+
+enum Kind { K_EMPTY = 0, K_ERROR, K_MANUAL, K_BDIRECT, K_XDIRECT, K_BMGR, K_XMGR };
+static const char* kindName(Kind k) {
+  switch (k) {
+    case K_ERROR: return "error"; case K_MANUAL: return "manual"; case K_BDIRECT: return "bdirect";
+    case K_XDIRECT: return "xdirect"; case K_BMGR: return "bmgr"; case K_XMGR: return "xmgr";
+    default: return "empty";
+  }
 }
+static bool isBasic(Kind k) { return k == K_BDIRECT || k == K_BMGR; }
+static bool isExt(Kind k) { return k == K_XDIRECT || k == K_XMGR; }
+static bool isZone(Kind k) { return isBasic(k) || isExt(k); }
+
+struct Desc {   // the simulator's own catalogue entry for a client / a saved form
+  Kind kind = K_EMPTY;
+  const void* zi = nullptr;
+  int zone = -1;          // index into the shipped registry of its database
+  uint32_t zoneId = 0;
+  int16_t stdMin = 0, dstMin = 0;
+};
+static bool sameDesc(const Desc& a, const Desc& b) {
+  if (a.kind != b.kind) return false;
+  if (a.kind == K_ERROR) return true;
+  if (a.kind == K_MANUAL) return a.stdMin == b.stdMin && a.dstMin == b.dstMin;
+  return a.zi == b.zi;
+}
+
+static const char* zoneName(Kind k, const void* zi) {
+  if (!zi) return "?";
+  return isBasic(k) ? basic::ZoneInfoBroker((const basic::ZoneInfo*)zi).name()
+                    : extended::ZoneInfoBroker((const extended::ZoneInfo*)zi).name();
+}
+static uint32_t zoneIdOf(bool ext, const void* zi) {
+  return ext ? extended::ZoneInfoBroker((const extended::ZoneInfo*)zi).zoneId()
+             : basic::ZoneInfoBroker((const basic::ZoneInfo*)zi).zoneId();
+}
+
+// --- civil date helpers (simulator's own; used for coverage classes and argument classes only)
+static int yearOfEpoch(int64_t e) {
+  int64_t days = e >= 0 ? e / 86400 : -((-e + 86399) / 86400);
+  // days since 2000-01-01 -> civil year (Howard Hinnant's civil_from_days)
+  int64_t d = days + 10957 + 719468;  // days since 0000-03-01 (1970-01-01 is 719468; 2000-01-01 is +10957)
+  int64_t era = (d >= 0 ? d : d - 146096) / 146097;
+  int64_t doe = d - era * 146097;
+  int64_t yoe = (doe - doe / 1460 + doe / 36524 - doe / 146096) / 365;
+  int64_t y = yoe + era * 400;
+  int64_t doy = doe - (365 * yoe + yoe / 4 - yoe / 100);
+  int64_t mp = (5 * doy + 2) / 153;
+  int64_t m = mp + (mp < 10 ? 3 : -9);
+  return (int)(y + (m <= 2));
+}
+static int64_t epochOfYearStart(int y) {  // seconds from 2000-01-01 to y-01-01 (UTC)
+  int64_t yy = y - 1;
+  int64_t era = (yy >= 0 ? yy : yy - 399) / 400;
+  int64_t yoe = yy - era * 400;
+  int64_t doy = (153 * (1 + 9) + 2) / 5;  // Jan 1: month index 10 in the March-based year
+  int64_t doe = yoe * 365 + yoe / 4 - yoe / 100 + doy;
+  int64_t days = era * 146097 + doe - 719468 - 10957;
+  return days * 86400;
+}
+
+// --- answers
+struct Ans {
+  bool err = false;
+  long v[8];
+  int n = 0;
+  std::string s;
+  Ans() { for (int i = 0; i < 8; i++) v[i] = 0; }
+  std::string show() const {
+    if (err) return "<error>";
+    std::string o = s.empty() && n == 0 ? "\"\"" : (s.empty() ? "" : "\"" + s + "\"");
+    for (int i = 0; i < n; i++) o += fmt("%s%ld", (i || !s.empty()) ? "," : "", v[i]);
+    return o;
+  }
+};
+static bool equalAns(const Ans& a, const Ans& b) {
+  if (a.err && b.err) return true;   // two error values are equal whatever their payload
+  if (a.err != b.err || a.n != b.n || a.s != b.s) return false;
+  for (int i = 0; i < a.n; i++) if (a.v[i] != b.v[i]) return false;
+  return true;
+}
+
+struct Query {
+  std::string kind;    // utc delta abbrev odt zdt zdc print prints zid
+  int64_t e = 0;       // epoch seconds
+  int y = 2000, mo = 1, d = 1, h = 0, mi = 0, s = 0;
+  bool byComponents() const { return kind == "odt" || kind == "zdc"; }
+  bool byEpoch() const { return kind == "utc" || kind == "delta" || kind == "abbrev" || kind == "zdt"; }
+  int year() const { return byComponents() ? y : yearOfEpoch(e); }
+};
+
+template <class DT> static void fillFields(Ans& a, const DT& o) {
+  a.v[0] = o.year(); a.v[1] = o.month(); a.v[2] = o.day(); a.v[3] = o.hour();
+  a.v[4] = o.minute(); a.v[5] = o.second(); a.v[6] = o.timeOffset().toMinutes();
+  a.n = 7;
+}
+
+static Ans ask(const TimeZone& tz, const Query& q) {
+  Ans a;
+  if (q.kind == "utc" || q.kind == "delta") {
+    TimeOffset o = q.kind == "utc" ? tz.getUtcOffset((acetime_t)q.e) : tz.getDeltaOffset((acetime_t)q.e);
+    a.err = o.isError(); a.v[0] = o.toMinutes(); a.n = 1;
+  } else if (q.kind == "abbrev") {
+    const char* p = tz.getAbbrev((acetime_t)q.e);
+    a.s = p ? p : "(null)";   // copied at once, as the user guide requires
+  } else if (q.kind == "odt") {
+    LocalDateTime ldt = LocalDateTime::forComponents((int16_t)q.y, (uint8_t)q.mo, (uint8_t)q.d,
+        (uint8_t)q.h, (uint8_t)q.mi, (uint8_t)q.s);
+    OffsetDateTime o = tz.getOffsetDateTime(ldt);
+    a.err = o.isError();
+    if (!a.err) fillFields(a, o);
+  } else if (q.kind == "zdc" || q.kind == "zdt") {
+    ZonedDateTime z = q.kind == "zdc"
+        ? ZonedDateTime::forComponents((int16_t)q.y, (uint8_t)q.mo, (uint8_t)q.d, (uint8_t)q.h, (uint8_t)q.mi,
+              (uint8_t)q.s, tz)
+        : ZonedDateTime::forEpochSeconds((acetime_t)q.e, tz);
+    a.err = z.isError();
+    if (!a.err) fillFields(a, z);
+  } else if (q.kind == "print" || q.kind == "prints") {
+    StrPrint sp;
+    if (q.kind == "print") tz.printTo(sp); else tz.printShortTo(sp);
+    a.s = sp.c_str();
+  } else if (q.kind == "zid") {
+    a.v[0] = (long)tz.getZoneId(); a.n = 1;
+  }
+  return a;
+}
+
+// --- poison-filled storage
+template <size_t N> struct Storage {
+  alignas(16) unsigned char mem[N];
+  void poison(uint8_t b) { memset(mem, b, N); }
+};
+
+struct ProcShadow {  // coverage bookkeeping only, never an oracle
+  bool used = false;
+  const void* zi = nullptr;
+  int year = 0;
+  bool ok = false;
+  void reset() { used = false; zi = nullptr; year = 0; ok = false; }
+};
+
+template <class P> struct ProcSlot {
+  Storage<sizeof(P)> st;
+  P* p = nullptr;
+  ProcShadow sh;
+  void construct(uint8_t poison) { st.poison(poison); p = new (st.mem) P(); sh.reset(); }
+  void drop() { p = nullptr; sh.reset(); }
+};
+
+struct MgrSlot {
+  bool ext = false;
+  int size = 0;
+  ZoneManager* base = nullptr;
+  Storage<sizeof(ExtendedZoneManager<4>) + sizeof(BasicZoneManager<4>)> st;
+  std::vector<const void*> registry;   // must outlive the manager
+  // shadow of the round-robin cache (coverage bookkeeping only)
+  const void* slots[4];
+  ProcShadow slotSh[4];
+  int cur = 0;
+  void drop() { base = nullptr; size = 0; registry.clear(); }
+  void construct(bool isExt, int sz, uint8_t poison) {
+    ext = isExt; size = sz; cur = 0;
+    for (int i = 0; i < 4; i++) { slots[i] = nullptr; slotSh[i].reset(); }
+    st.poison(poison);
+    uint16_t n = (uint16_t)registry.size();
+    if (ext) {
+      const extended::ZoneInfo* const* r = (const extended::ZoneInfo* const*)(registry.empty() ? nullptr : &registry[0]);
+      switch (sz) {
+        case 1: base = new (st.mem) ExtendedZoneManager<1>(n, r); break;
+        case 2: base = new (st.mem) ExtendedZoneManager<2>(n, r); break;
+        case 3: base = new (st.mem) ExtendedZoneManager<3>(n, r); break;
+        default: base = new (st.mem) ExtendedZoneManager<4>(n, r); size = 4; break;
+      }
+    } else {
+      const basic::ZoneInfo* const* r = (const basic::ZoneInfo* const*)(registry.empty() ? nullptr : &registry[0]);
+      switch (sz) {
+        case 1: base = new (st.mem) BasicZoneManager<1>(n, r); break;
+        case 2: base = new (st.mem) BasicZoneManager<2>(n, r); break;
+        case 3: base = new (st.mem) BasicZoneManager<3>(n, r); break;
+        default: base = new (st.mem) BasicZoneManager<4>(n, r); size = 4; break;
+      }
+    }
+  }
+  TimeZone createForZoneInfo(const void* zi) {
+    if (ext) {
+      const extended::ZoneInfo* z = (const extended::ZoneInfo*)zi;
+      switch (size) {
+        case 1: return static_cast<ExtendedZoneManager<1>*>(base)->createForZoneInfo(z);
+        case 2: return static_cast<ExtendedZoneManager<2>*>(base)->createForZoneInfo(z);
+        case 3: return static_cast<ExtendedZoneManager<3>*>(base)->createForZoneInfo(z);
+        default: return static_cast<ExtendedZoneManager<4>*>(base)->createForZoneInfo(z);
+      }
+    } else {
+      const basic::ZoneInfo* z = (const basic::ZoneInfo*)zi;
+      switch (size) {
+        case 1: return static_cast<BasicZoneManager<1>*>(base)->createForZoneInfo(z);
+        case 2: return static_cast<BasicZoneManager<2>*>(base)->createForZoneInfo(z);
+        case 3: return static_cast<BasicZoneManager<3>*>(base)->createForZoneInfo(z);
+        default: return static_cast<BasicZoneManager<4>*>(base)->createForZoneInfo(z);
+      }
+    }
+  }
+  // catalogue lookup by the simulator (not through the registrar)
+  const void* findById(uint32_t id) const {
+    for (size_t i = 0; i < registry.size(); i++) if (zoneIdOf(ext, registry[i]) == id) return registry[i];
+    return nullptr;
+  }
+  // shadow cache: returns the shadow of the slot that serves zi; sets evicted
+  ProcShadow& touch(const void* zi, bool& evicted, bool& rebind) {
+    evicted = rebind = false;
+    for (int i = 0; i < size; i++) if (slots[i] == zi) return slotSh[i];
+    int i = cur;
+    cur = (cur + 1) % size;
+    if (slots[i] != nullptr) { evicted = true; rebind = true; }
+    slots[i] = zi;
+    bool wasUsed = slotSh[i].used;
+    slotSh[i].reset();
+    if (wasUsed) { slotSh[i].used = true; slotSh[i].zi = (const void*)1; }  // "other zone" marker
+    return slotSh[i];
+  }
+};
+
+struct Client {
+  Desc d;
+  TimeZone tz;
+  int proc = -1;
+};
+
+struct SavedForm {
+  bool present = false;
+  uint8_t bytes[5];
+  Desc d;   // what the simulator knows was saved
+};
+
+struct TzOpts { bool armC08 = false, armC16 = false, armC09 = false; };
+
+class TzDevice {
+ public:
+  explicit TzDevice(const TzOpts& o) : opts(o) {
+    for (int i = 0; i < kMaxProcs; i++) { bproc[i].p = nullptr; xproc[i].p = nullptr; }
+  }
+  TzOpts opts;
+  uint8_t poison = 0xA5;
+  ProcSlot<BasicZoneProcessor> bproc[kMaxProcs];
+  ProcSlot<ExtendedZoneProcessor> xproc[kMaxProcs];
+  MgrSlot bmgr, xmgr;
+  Client clients[kMaxClients];
+  SavedForm store[kMaxStore];   // durable: survives REBOOT
+  Query lastQ;
+  bool sawNontrivial = false;
+  ClockDevice* clockDev = nullptr;
+
+  void dropVolatile() {
+    for (int i = 0; i < kMaxProcs; i++) { bproc[i].drop(); xproc[i].drop(); }
+    bmgr.drop(); xmgr.drop();
+    for (int i = 0; i < kMaxClients; i++) clients[i] = Client();
+  }
+  void dropClientsOf(Kind k) { for (int i = 0; i < kMaxClients; i++) if (clients[i].d.kind == k) clients[i] = Client(); }
+  void dropClientsOfProc(Kind k, int p) {
+    for (int i = 0; i < kMaxClients; i++) if (clients[i].d.kind == k && clients[i].proc == p) clients[i] = Client();
+  }
+
+  void exec(const std::vector<std::string>& t, int opIndex, Verdict& v, Coverage& cov, Bitmap* bm);
+  void doQuery(int c, const Query& q, int opIndex, Verdict& v, Coverage& cov, Bitmap* bm);
+  void checkPairs(int opIndex, Verdict& v, Coverage& cov);
+  Ans fresh(const Desc& d, const Query& q, uint8_t pz);
+  void buildRegistry(MgrSlot& m, const std::vector<std::string>& t);
+};
+
+static const void* shippedZone(bool ext, long idx) {
+  if (ext) return (idx >= 0 && idx < zonedbx::kZoneRegistrySize) ? zonedbx::kZoneRegistry[idx] : nullptr;
+  return (idx >= 0 && idx < zonedb::kZoneRegistrySize) ? zonedb::kZoneRegistry[idx] : nullptr;
+}
+
+void TzDevice::buildRegistry(MgrSlot& m, const std::vector<std::string>& t) {
+  bool ext = m.ext;
+  m.registry.clear();
+  std::string reg = kvStr(t, "reg", "full");
+  int full = ext ? zonedbx::kZoneRegistrySize : zonedb::kZoneRegistrySize;
+  if (reg == "full") {
+    for (int i = 0; i < full; i++) m.registry.push_back(shippedZone(ext, i));
+    return;
+  }
+  // reg=sub seed=<s> n=<count> order=sorted|shuffled with=<i>,<j>,...
+  Rng rng((uint64_t)kvInt(t, "seed", 1));
+  int n = (int)kvInt(t, "n", 10);
+  if (n > full) n = full;
+  std::vector<int> idx;
+  std::string with = kvStr(t, "with", "");
+  for (size_t p = 0; p < with.size();) {
+    size_t q = with.find(',', p);
+    if (q == std::string::npos) q = with.size();
+    long z = strtol(with.substr(p, q - p).c_str(), nullptr, 10);
+    if (z >= 0 && z < full) idx.push_back((int)z);
+    p = q + 1;
+  }
+  std::string without = kvStr(t, "without", "");
+  std::set<int> banned;
+  for (size_t p = 0; p < without.size();) {
+    size_t q = without.find(',', p);
+    if (q == std::string::npos) q = without.size();
+    banned.insert((int)strtol(without.substr(p, q - p).c_str(), nullptr, 10));
+    p = q + 1;
+  }
+  std::set<int> have(idx.begin(), idx.end());
+  int guard = 0;
+  while ((int)idx.size() < n && guard++ < 10000) {
+    int z = (int)rng.below(full);
+    if (have.count(z) || banned.count(z)) continue;
+    have.insert(z); idx.push_back(z);
+  }
+  if (kvStr(t, "order", "sorted") == "sorted") {
+    std::vector<int> s(have.begin(), have.end());   // shipped registries are sorted by name
+    idx.swap(s);
+  } else {
+    for (size_t i = idx.size(); i > 1; i--) { size_t j = rng.below(i); std::swap(idx[i - 1], idx[j]); }
+  }
+  for (size_t i = 0; i < idx.size(); i++) m.registry.push_back(shippedZone(ext, idx[i]));
+}
+
+Ans TzDevice::fresh(const Desc& d, const Query& q, uint8_t pz) {
+  if (isBasic(d.kind)) {
+    Storage<sizeof(BasicZoneProcessor)> st;
+    st.poison(pz);
+    BasicZoneProcessor* p = new (st.mem) BasicZoneProcessor((const basic::ZoneInfo*)d.zi);
+    TimeZone tz = TimeZone::forZoneInfo((const basic::ZoneInfo*)d.zi, p);
+    return ask(tz, q);
+  }
+  if (isExt(d.kind)) {
+    Storage<sizeof(ExtendedZoneProcessor)> st;
+    st.poison(pz);
+    ExtendedZoneProcessor* p = new (st.mem) ExtendedZoneProcessor((const extended::ZoneInfo*)d.zi);
+    TimeZone tz = TimeZone::forZoneInfo((const extended::ZoneInfo*)d.zi, p);
+    return ask(tz, q);
+  }
+  if (d.kind == K_MANUAL) {
+    TimeZone tz = TimeZone::forTimeOffset(TimeOffset::forMinutes(d.stdMin), TimeOffset::forMinutes(d.dstMin));
+    return ask(tz, q);
+  }
+  return ask(TimeZone::forError(), q);
+}
+
+static const char* argClass(const Query& q, int startYear, int untilYear) {
+  if (q.kind == "print" || q.kind == "prints" || q.kind == "zid") return "none";
+  if (q.byEpoch() && q.e == LocalDate::kInvalidEpochSeconds) return "sentinel";
+  int y = q.year();
+  if (q.byComponents() && (q.mo < 1 || q.mo > 12 || q.d < 1 || q.d > 31 || q.h > 23 || q.mi > 59 || q.s > 59))
+    return "badcomp";
+  if (y < startYear - 1) return y >= startYear - 2 ? "below-edge" : "below";
+  if (y == startYear - 1) return "first";
+  if (y > untilYear) return y <= untilYear + 1 ? "above-edge" : "above";
+  if (y == untilYear) return "until";
+  return "in";
+}
+
+static const char* stateName(const ProcShadow& sh, const void* zi, int year) {
+  if (!sh.used) return "unfilled";
+  if (sh.zi != zi) return "other-zone";
+  if (sh.ok) return sh.year == year ? "same-year" : "other-year";
+  return sh.year == year ? "failed-same-year" : "failed-other-year";
+}
+
+void TzDevice::doQuery(int c, const Query& q, int opIndex, Verdict& v, Coverage& cov, Bitmap* bm) {
+  Client& cl = clients[c];
+  if (cl.d.kind == K_EMPTY) return;
+  cov.count("tz.queries");
+  const Desc d = cl.d;
+  int startYear = 2000, untilYear = 2050;
+  if (isBasic(d.kind)) { basic::ZoneInfoBroker b((const basic::ZoneInfo*)d.zi); startYear = b.startYear(); untilYear = b.untilYear(); }
+  if (isExt(d.kind)) { extended::ZoneInfoBroker b((const extended::ZoneInfo*)d.zi); startYear = b.startYear(); untilYear = b.untilYear(); }
+  const char* ac = argClass(q, startYear, untilYear);
+  const int year = q.year();
+  const bool fills = q.byEpoch() || q.byComponents();
+
+  // coverage: state of the processor that will serve this query (bookkeeping only)
+  ProcShadow* sh = nullptr;
+  bool evicted = false, rebind = false;
+  if (d.kind == K_BDIRECT && cl.proc >= 0) sh = &bproc[cl.proc].sh;
+  else if (d.kind == K_XDIRECT && cl.proc >= 0) sh = &xproc[cl.proc].sh;
+  else if (d.kind == K_BMGR && bmgr.base) sh = &bmgr.touch(d.zi, evicted, rebind);
+  else if (d.kind == K_XMGR && xmgr.base) sh = &xmgr.touch(d.zi, evicted, rebind);
+  if (sh) {
+    const char* st = stateName(*sh, d.zi, year);
+    if ((d.kind == K_BDIRECT || d.kind == K_XDIRECT) && sh->used && sh->zi != d.zi) rebind = true;
+    if (evicted) cov.count("fault.evict");
+    if (rebind) cov.count("fault.rebind");
+    cov.cell("c08", fmt("%s|%s|%s|%s", kindName(d.kind), st, q.kind.c_str(), ac));
+    bool nt = fills && sh->used && !(sh->zi == d.zi && sh->ok && sh->year == year);
+    if (nt) { sawNontrivial = true; cov.count("tz.nontrivial_queries"); }
+    if (bm && fills && sh->used && sh->zi == d.zi && sh->year >= 1999 && sh->year <= 2050
+        && year >= 1999 && year <= 2050 && d.zone >= 0) {
+      size_t zbase = isExt(d.kind) ? (size_t)zonedb::kZoneRegistrySize : 0;
+      bm->set(((zbase + (size_t)d.zone) * 52 + (size_t)(sh->year - 1999)) * 52 + (size_t)(year - 1999));
+    }
+  }
+  if (strcmp(ac, "in") != 0 && strcmp(ac, "none") != 0 && strcmp(ac, "first") != 0 && strcmp(ac, "until") != 0)
+    cov.count("fault.oor_query");
+
+  if (d.kind == K_XDIRECT && opts.armC09 && cl.proc >= 0 && xproc[cl.proc].p)
+    xproc[cl.proc].p->resetTransitionHighWater();
+
+  // the real query
+  Ans r = ask(cl.tz, q);
+
+  if (sh && fills) {
+    sh->used = true; sh->zi = d.zi; sh->year = year;
+    sh->ok = q.kind == "abbrev" ? !r.s.empty() : !r.err;
+  } else if (sh && !sh->used && isZone(d.kind) && (d.kind == K_BMGR || d.kind == K_XMGR)) {
+    sh->used = true; sh->zi = d.zi; sh->year = 0; sh->ok = false;  // bound by the cache, not filled
+  }
+
+  if (opts.armC08) {
+    uint8_t p1 = (uint8_t)(poison ^ 0x3c), p2 = (uint8_t)~p1;
+    Ans f1 = fresh(d, q, p1), f2 = fresh(d, q, p2);
+    if (!equalAns(f1, f2)) {
+      v.fail("c08-fresh-undefined", fmt("two fresh %s time zones for %s in storage filled with 0x%02x / 0x%02x "
+          "disagree on %s: %s vs %s (the code read memory it never wrote)", kindName(d.kind),
+          zoneName(d.kind, d.zi), p1, p2, q.kind.c_str(), f1.show().c_str(), f2.show().c_str()), opIndex);
+    } else if (!equalAns(r, f1)) {
+      v.fail(fmt("c08-history-%s", q.kind.c_str()), fmt("client %d (%s %s) answered %s to %s(%s); a freshly "
+          "constructed time zone with its own processor answers %s", c, kindName(d.kind), zoneName(d.kind, d.zi),
+          r.show().c_str(), q.kind.c_str(),
+          q.byComponents() ? fmt("%d-%02d-%02dT%02d:%02d:%02d", q.y, q.mo, q.d, q.h, q.mi, q.s).c_str()
+                           : fmt("%lld", (long long)q.e).c_str(),
+          f1.show().c_str()), opIndex);
+    }
+    cov.count("c08.comparisons");
+  }
+
+  if (opts.armC09) {
+    // M2: arguments the generator knows are outside the supported range stay errors
+    bool sentinel = q.byEpoch() && q.e == LocalDate::kInvalidEpochSeconds;
+    bool badcomp = strcmp(ac, "badcomp") == 0;
+    bool far = isZone(d.kind) && fills && (year <= startYear - 3 || year >= untilYear + 2);
+    bool expectErr = false;
+    if (sentinel && (q.kind == "zdt" || isZone(d.kind))) expectErr = true;
+    if (badcomp) expectErr = true;
+    if (far) expectErr = true;
+    if (d.kind == K_ERROR && fills) expectErr = true;
+    if (expectErr) {
+      cov.count("c09.m2_checks");
+      bool isErr = q.kind == "abbrev" ? r.s.empty() : r.err;
+      if (!isErr) {
+        v.fail("c09-error-lost", fmt("client %d (%s %s): %s with an argument outside the supported range (%s) "
+            "returned the non-error value %s", c, kindName(d.kind), zoneName(d.kind, d.zi), q.kind.c_str(), ac,
+            r.show().c_str()), opIndex);
+      }
+    }
+    // M3: pools
+    if (d.kind == K_XDIRECT && cl.proc >= 0 && xproc[cl.proc].p && fills) {
+      int hw = xproc[cl.proc].p->getTransitionHighWater();
+      int bufSize = ((const extended::ZoneInfo*)d.zi)->transitionBufSize;
+      cov.count("c09.m3_checks");
+      cov.cell("c09.hw", fmt("%d", hw));
+      if (hw >= bufSize || hw >= 8) {
+        v.fail("c09-pool-highwater", fmt("%s year %d: transition pool high-water mark %d, recorded "
+            "transitionBufSize %d, capacity 8", zoneName(d.kind, d.zi), year, hw, bufSize), opIndex);
+      }
+    }
+    if (ace_time_verif_basic_dropped != 0) {
+      v.fail("c09-basic-dropped", fmt("%s year %d: BasicZoneProcessor dropped %lu transition(s) for lack of "
+          "cache slots", zoneName(d.kind, d.zi), year, ace_time_verif_basic_dropped), opIndex);
+      ace_time_verif_basic_dropped = 0;
+    }
+    cov.cell("c09", fmt("%s|%s|%s", q.kind.c_str(), ac, kindName(d.kind)));
+  }
+  lastQ = q;
+}
+
+void TzDevice::checkPairs(int opIndex, Verdict& v, Coverage& cov) {
+  for (int i = 0; i < kMaxClients; i++) {
+    if (clients[i].d.kind == K_EMPTY) continue;
+    for (int j = i; j < kMaxClients; j++) {
+      if (clients[j].d.kind == K_EMPTY) continue;
+      bool eq = clients[i].tz == clients[j].tz;
+      bool ne = clients[i].tz != clients[j].tz;
+      bool want = sameDesc(clients[i].d, clients[j].d);
+      cov.count("c16.pair_checks");
+      if (eq != want || ne == eq) {
+        v.fail("c16-equality", fmt("clients %d (%s %s %d/%d) and %d (%s %s %d/%d): operator== says %d, "
+            "operator!= says %d, same kind and same zone/offsets is %d", i, kindName(clients[i].d.kind),
+            zoneName(clients[i].d.kind, clients[i].d.zi), clients[i].d.stdMin, clients[i].d.dstMin, j,
+            kindName(clients[j].d.kind), zoneName(clients[j].d.kind, clients[j].d.zi), clients[j].d.stdMin,
+            clients[j].d.dstMin, eq ? 1 : 0, ne ? 1 : 0, want ? 1 : 0), opIndex);
+        return;
+      }
+    }
+  }
+}
+
+static bool parseQuery(const std::vector<std::string>& t, size_t at, Query& q) {
+  if (t.size() <= at) return false;
+  q.kind = t[at];
+  if (q.byEpoch()) q.e = tokInt(t, at + 1, 0);
+  else if (q.byComponents()) {
+    q.y = (int)tokInt(t, at + 1, 2000); q.mo = (int)tokInt(t, at + 2, 1); q.d = (int)tokInt(t, at + 3, 1);
+    q.h = (int)tokInt(t, at + 4, 0); q.mi = (int)tokInt(t, at + 5, 0); q.s = (int)tokInt(t, at + 6, 0);
+  } else if (!(q.kind == "print" || q.kind == "prints" || q.kind == "zid")) return false;
+  return true;
+}
+
+void TzDevice::exec(const std::vector<std::string>& t, int opIndex, Verdict& v, Coverage& cov, Bitmap* bm) {
+  const std::string& op = t[0];
+  if (op == "CFG") {
+    if (t.size() > 1 && t[1] == "TZ") poison = (uint8_t)kvInt(t, "poison", 0xA5);
+    return;
+  }
+  cov.count("ops");
+  if (op == "PROC") {          // PROC b|x <i>
+    bool ext = t.size() > 1 && t[1] == "x";
+    long i = tokInt(t, 2, 0);
+    if (i < 0 || i >= kMaxProcs) return;
+    dropClientsOfProc(ext ? K_XDIRECT : K_BDIRECT, (int)i);
+    if (ext) xproc[i].construct(poison); else bproc[i].construct(poison);
+  } else if (op == "MGR") {    // MGR b|x size=<n> reg=...
+    bool ext = t.size() > 1 && t[1] == "x";
+    MgrSlot& m = ext ? xmgr : bmgr;
+    dropClientsOf(ext ? K_XMGR : K_BMGR);
+    m.ext = ext;
+    buildRegistry(m, t);
+    long sz = kvInt(t, "size", 1);
+    if (sz < 1) sz = 1;
+    if (sz > 4) sz = 4;
+    m.construct(ext, (int)sz, poison);
+    cov.cell("mgr", fmt("%s%ld|%s", ext ? "x" : "b", sz, kvStr(t, "reg", "full").c_str()));
+  } else if (op == "TZ") {     // TZ <slot> <how> ...
+    long s = tokInt(t, 1, -1);
+    if (s < 0 || s >= kMaxClients || t.size() < 3) return;
+    const std::string& how = t[2];
+    Client c;
+    if (how == "bdirect" || how == "xdirect") {
+      bool ext = how[0] == 'x';
+      long z = tokInt(t, 3, 0), p = kvInt(t, "proc", 0);
+      const void* zi = shippedZone(ext, z);
+      if (!zi || p < 0 || p >= kMaxProcs) return;
+      if (ext) { if (!xproc[p].p) return; c.tz = TimeZone::forZoneInfo((const extended::ZoneInfo*)zi, xproc[p].p); }
+      else { if (!bproc[p].p) return; c.tz = TimeZone::forZoneInfo((const basic::ZoneInfo*)zi, bproc[p].p); }
+      c.d.kind = ext ? K_XDIRECT : K_BDIRECT; c.d.zi = zi; c.d.zone = (int)z; c.d.zoneId = zoneIdOf(ext, zi); c.proc = (int)p;
+    } else if (how == "bmgr" || how == "xmgr" || how == "bmgri" || how == "xmgri" || how == "bmgrid" || how == "xmgrid") {
+      bool ext = how[0] == 'x';
+      MgrSlot& m = ext ? xmgr : bmgr;
+      if (!m.base) return;
+      long z = tokInt(t, 3, 0);
+      const void* zi = nullptr;
+      if (how.size() == 4) {            // createForZoneInfo: no search involved
+        zi = shippedZone(ext, z);
+        if (!zi) return;
+        c.tz = m.createForZoneInfo(zi);
+      } else if (how.size() == 5) {     // createForZoneIndex into the manager's registry
+        c.tz = m.base->createForZoneIndex((uint16_t)z);
+        zi = (z >= 0 && (size_t)z < m.registry.size()) ? m.registry[z] : nullptr;
+      } else {                          // createForZoneId of a shipped zone (may be absent from the registry)
+        const void* want = shippedZone(ext, z);
+        if (!want) return;
+        uint32_t id = zoneIdOf(ext, want);
+        c.tz = m.base->createForZoneId(id);
+        zi = m.findById(id);
+      }
+      if (zi) {
+        c.d.kind = ext ? K_XMGR : K_BMGR; c.d.zi = zi; c.d.zoneId = zoneIdOf(ext, zi);
+        c.d.zone = -1;
+        int full = ext ? zonedbx::kZoneRegistrySize : zonedb::kZoneRegistrySize;
+        for (int i = 0; i < full; i++) if (shippedZone(ext, i) == zi) { c.d.zone = i; break; }
+        if (opts.armC16 && (c.tz.isError() || c.tz.getZoneId() != c.d.zoneId)) {
+          v.fail("c16-create", fmt("manager %s created for a zone its registry contains (%s) is %s", how.c_str(),
+              zoneName(c.d.kind, zi), c.tz.isError() ? "the error zone" : "a different zone"), opIndex);
+        }
+      } else {
+        c.d.kind = K_ERROR;
+        if (opts.armC16 && !c.tz.isError()) {
+          v.fail("c16-create", fmt("manager %s for index/id not in the registry did not return the error zone", how.c_str()), opIndex);
+        }
+      }
+    } else if (how == "manual") {
+      long sm = tokInt(t, 3, 0), dm = tokInt(t, 4, 0);
+      c.tz = TimeZone::forTimeOffset(TimeOffset::forMinutes((int16_t)sm), TimeOffset::forMinutes((int16_t)dm));
+      c.d.kind = K_MANUAL; c.d.stdMin = (int16_t)sm; c.d.dstMin = (int16_t)dm;
+    } else if (how == "utc") {
+      c.tz = TimeZone::forUtc(); c.d.kind = K_MANUAL;
+    } else if (how == "error") {
+      c.tz = TimeZone::forError(); c.d.kind = K_ERROR;
+    } else if (how == "copy") {
+      long o = tokInt(t, 3, -1);
+      if (o < 0 || o >= kMaxClients || clients[o].d.kind == K_EMPTY) return;
+      c = clients[o];   // TimeZone is a value type: copy construction / assignment
+    } else return;
+    clients[s] = c;
+    cov.cell("client", kindName(c.d.kind));
+  } else if (op == "Q" || op == "QR") {   // Q <slot> <kind> args ; QR <slot> = repeat the last query on <slot>
+    long s = tokInt(t, 1, -1);
+    if (s < 0 || s >= kMaxClients) return;
+    Query q;
+    if (op == "QR") { if (lastQ.kind.empty()) return; q = lastQ; cov.count("probe.repeated_query"); }
+    else if (!parseQuery(t, 2, q)) return;
+    doQuery((int)s, q, opIndex, v, cov, bm);
+  } else if (op == "QN") {     // QN <slot> <kind>: query at the device clock's current time
+    long s = tokInt(t, 1, -1);
+    if (s < 0 || s >= kMaxClients || t.size() < 3 || !clockDev) return;
+    Query q; q.kind = t[2];
+    if (!q.byEpoch()) return;
+    ace_time::clock::SystemClockLoop* c = clockDev->clock();
+    q.e = c ? c->getNow() : LocalDate::kInvalidEpochSeconds;
+    cov.count("probe.query_at_clock_now");
+    doQuery((int)s, q, opIndex, v, cov, bm);
+  } else if (op == "MANSET") { // MANSET <slot> std|dst <minutes>
+    long s = tokInt(t, 1, -1);
+    if (s < 0 || s >= kMaxClients || t.size() < 4 || clients[s].d.kind == K_EMPTY) return;
+    int16_t m = (int16_t)tokInt(t, 3, 0);
+    Client& c = clients[s];
+    if (t[2] == "std") { c.tz.setStdOffset(TimeOffset::forMinutes(m)); if (c.d.kind == K_MANUAL) c.d.stdMin = m; }
+    else { c.tz.setDstOffset(TimeOffset::forMinutes(m)); if (c.d.kind == K_MANUAL) c.d.dstMin = m; }
+    // on any other kind the setters must be no-ops: the pair check below and later queries see it
+  } else if (op == "SAVE") {   // SAVE <slot> <store>
+    long s = tokInt(t, 1, -1), k = tokInt(t, 2, -1);
+    if (s < 0 || s >= kMaxClients || k < 0 || k >= kMaxStore || clients[s].d.kind == K_EMPTY) return;
+    TimeZoneData d = clients[s].tz.toTimeZoneData();
+    SavedForm& f = store[k];
+    f.present = true; f.d = clients[s].d;
+    f.bytes[0] = d.type;       // written field by field, little endian, like the example apps' EEPROM code
+    if (d.type == TimeZoneData::kTypeManual) {
+      f.bytes[1] = (uint8_t)(d.stdOffsetMinutes & 0xff); f.bytes[2] = (uint8_t)((d.stdOffsetMinutes >> 8) & 0xff);
+      f.bytes[3] = (uint8_t)(d.dstOffsetMinutes & 0xff); f.bytes[4] = (uint8_t)((d.dstOffsetMinutes >> 8) & 0xff);
+    } else {
+      uint32_t id = d.type == TimeZoneData::kTypeZoneId ? d.zoneId : 0;
+      f.bytes[1] = id & 0xff; f.bytes[2] = (id >> 8) & 0xff; f.bytes[3] = (id >> 16) & 0xff; f.bytes[4] = (id >> 24) & 0xff;
+    }
+    cov.count("c16.saves");
+  } else if (op == "REBOOT") {
+    dropVolatile();
+    poison = (uint8_t)kvInt(t, "poison", poison);
+    cov.count("fault.reboot");
+  } else if (op == "RESTORE") {  // RESTORE <store> <slot> via=b|x e=<epoch> e2=<epoch>
+    long k = tokInt(t, 1, -1), s = tokInt(t, 2, -1);
+    if (s < 0 || s >= kMaxClients || k < 0 || k >= kMaxStore || !store[k].present) return;
+    bool ext = kvStr(t, "via", "x") == "x";
+    MgrSlot& m = ext ? xmgr : bmgr;
+    if (!m.base) return;
+    const SavedForm& f = store[k];
+    TimeZoneData d;
+    d.type = f.bytes[0];
+    if (d.type == TimeZoneData::kTypeManual) {
+      d.stdOffsetMinutes = (int16_t)(f.bytes[1] | (f.bytes[2] << 8));
+      d.dstOffsetMinutes = (int16_t)(f.bytes[3] | (f.bytes[4] << 8));
+    } else {
+      d.zoneId = (uint32_t)f.bytes[1] | ((uint32_t)f.bytes[2] << 8) | ((uint32_t)f.bytes[3] << 16) | ((uint32_t)f.bytes[4] << 24);
+    }
+    TimeZone tz = m.base->createForTimeZoneData(d);
+    Client c; c.tz = tz;
+    cov.count("c16.restores");
+    const char* rel = "n/a";
+    if (isZone(f.d.kind)) {
+      const void* zi = m.findById(f.d.zoneId);
+      rel = zi ? "present" : "absent";
+      if (zi) {
+        c.d.kind = ext ? K_XMGR : K_BMGR; c.d.zi = zi; c.d.zoneId = f.d.zoneId;
+        int full = ext ? zonedbx::kZoneRegistrySize : zonedb::kZoneRegistrySize;
+        for (int i = 0; i < full; i++) if (shippedZone(ext, i) == zi) { c.d.zone = i; break; }
+        if (opts.armC16) {
+          TimeZone direct = m.createForZoneInfo(zi);
+          if (!(tz == direct) || tz != direct) {
+            v.fail("c16-restore-zone", fmt("%s saved from a %s client and restored through the %s manager (size %d, "
+                "registry of %d containing it) does not compare equal to the zone that manager creates directly%s",
+                zoneName(c.d.kind, zi), kindName(f.d.kind), ext ? "extended" : "basic", m.size, (int)m.registry.size(),
+                tz.isError() ? " (it is the error zone)" : ""), opIndex);
+          } else if (tz.getZoneId() != f.d.zoneId) {
+            v.fail("c16-restore-zone", fmt("restored zone id %lu, saved %lu", (unsigned long)tz.getZoneId(),
+                (unsigned long)f.d.zoneId), opIndex);
+          } else {
+            // identical answers, asked alternately of the restored and the directly created value
+            Query qs[4];
+            qs[0].kind = "utc"; qs[0].e = kvInt(t, "e", 0);
+            qs[1].kind = "abbrev"; qs[1].e = kvInt(t, "e", 0);
+            qs[2].kind = "zdt"; qs[2].e = kvInt(t, "e2", 500000000);
+            qs[3].kind = "print";
+            for (int i = 0; i < 4 && !v.violated; i++) {
+              Ans a = ask(tz, qs[i]), b = ask(direct, qs[i]);
+              if (!equalAns(a, b)) {
+                v.fail("c16-restore-answers", fmt("%s restored vs directly created by the same manager disagree on %s: "
+                    "%s vs %s", zoneName(c.d.kind, zi), qs[i].kind.c_str(), a.show().c_str(), b.show().c_str()), opIndex);
+              }
+            }
+          }
+        }
+      } else {
+        c.d.kind = K_ERROR;
+        cov.count("fault.registry_changed");
+        if (opts.armC16 && !tz.isError()) {
+          v.fail("c16-restore-absent", fmt("zone id %lu is not in the restoring manager's registry (%d entries) but "
+              "the restored time zone is not the error zone (type %d)", (unsigned long)f.d.zoneId,
+              (int)m.registry.size(), (int)tz.getType()), opIndex);
+        }
+      }
+    } else if (f.d.kind == K_MANUAL) {
+      c.d.kind = K_MANUAL; c.d.stdMin = f.d.stdMin; c.d.dstMin = f.d.dstMin;
+      if (opts.armC16) {
+        acetime_t e = (acetime_t)kvInt(t, "e", 0);
+        if (tz.getType() != TimeZone::kTypeManual || tz.getStdOffset().toMinutes() != f.d.stdMin
+            || tz.getDstOffset().toMinutes() != f.d.dstMin) {
+          v.fail("c16-restore-manual", fmt("manual zone std=%d dst=%d restored as type %d std=%d dst=%d", f.d.stdMin,
+              f.d.dstMin, (int)tz.getType(), tz.getStdOffset().toMinutes(), tz.getDstOffset().toMinutes()), opIndex);
+        } else if (tz.getUtcOffset(e).toMinutes() != f.d.stdMin + f.d.dstMin) {
+          v.fail("c16-manual-offset", fmt("manual zone std=%d dst=%d has UTC offset %d", f.d.stdMin, f.d.dstMin,
+              tz.getUtcOffset(e).toMinutes()), opIndex);
+        }
+      }
+    } else {
+      c.d.kind = K_ERROR;
+      if (opts.armC16 && !tz.isError()) {
+        v.fail("c16-restore-error", fmt("the error zone was saved; restored type is %d", (int)tz.getType()), opIndex);
+      }
+    }
+    cov.cell("c16", fmt("%s|%s%d|%s|%s", kindName(f.d.kind), ext ? "x" : "b", m.size, rel,
+        m.registry.size() == (size_t)(ext ? zonedbx::kZoneRegistrySize : zonedb::kZoneRegistrySize) ? "full" : "subset"));
+    if (isZone(f.d.kind) && f.d.zone >= 0) cov.cell(isExt(f.d.kind) ? "c16.zones.x" : "c16.zones.b", fmt("%d", f.d.zone));
+    if (f.d.kind == K_MANUAL) cov.cell("c16.manual", fmt("%d,%d", f.d.stdMin, f.d.dstMin));
+    clients[s] = c;
+    sawNontrivial = true;
+  }
+
+  if (opts.armC16 && !v.violated) {
+    checkPairs(opIndex, v, cov);
+    // a manual zone's offset is always standard plus DST offset
+    for (int i = 0; i < kMaxClients && !v.violated; i++) {
+      const Client& c = clients[i];
+      if (c.d.kind != K_MANUAL) continue;
+      int got = c.tz.getUtcOffset((acetime_t)(opIndex * 7919)).toMinutes();
+      if (got != c.d.stdMin + c.d.dstMin || c.tz.getStdOffset().toMinutes() != c.d.stdMin
+          || c.tz.getDstOffset().toMinutes() != c.d.dstMin || c.tz.getDeltaOffset(0).toMinutes() != c.d.dstMin) {
+        v.fail("c16-manual-offset", fmt("manual client %d std=%d dst=%d: getUtcOffset=%d getStdOffset=%d getDstOffset=%d",
+            i, c.d.stdMin, c.d.dstMin, got, c.tz.getStdOffset().toMinutes(), c.tz.getDstOffset().toMinutes()), opIndex);
+      }
+    }
+  }
+}
+
+bool execTz(const Trace& tr, Verdict& v, Coverage& cov, bool& nontrivial, Bitmap* bm) {
+  TzOpts o;
+  o.armC08 = tr.profile == "tz-history";
+  o.armC16 = tr.profile == "tz-restore";
+  o.armC09 = tr.profile == "device";
+  static TzDevice* devStorage = nullptr;   // large object (poisoned stores): reuse the allocation
+  if (devStorage) { delete devStorage; devStorage = nullptr; }
+  devStorage = new TzDevice(o);
+  TzDevice& dev = *devStorage;
+  ClockOpts co;
+  ClockDevice clockDev(co);
+  if (o.armC09) dev.clockDev = &clockDev;
+  ace_time_verif_basic_dropped = 0;
+  for (size_t i = 0; i < tr.lines.size() && !v.violated; i++) {
+    g_curOp = (int)i;
+    std::vector<std::string> t = splitWs(tr.lines[i]);
+    if (t.empty()) continue;
+    if (o.armC09) {
+      if ((t[0] == "CFG" && t.size() > 1 && t[1] == "CLOCK") || t[0] == "REF") { clockDev.configure(t); continue; }
+      if (clockDev.exec(t, (int)i, v, cov)) {
+        if (t[0] != "REBOOT") continue;   // REBOOT goes to both parts
+      }
+    }
+    dev.exec(t, (int)i, v, cov, bm);
+  }
+  nontrivial = dev.sawNontrivial;
+  return true;
+}
+
+// ---------------------------------------------------------------------------
+// Generator
+
+namespace {
+
+struct Mix {
+  bool clock = false;       // device profile: clock ops too
+  bool restore = false;     // SAVE / REBOOT / RESTORE / manual / error kinds
+  bool extremes = false;    // INT32 extremes and far-out component years (C09 only)
+  int wQuery = 80, wRepeat = 10, wSetup = 5, wSave = 0, wRestore = 0, wReboot = 0, wManset = 0, wClock = 0;
+};
+
+struct Gen {
+  Rng rng;
+  Trace tr;
+  Mix mix;
+  std::vector<int> bz, xz;   // this run's small zone sets (indices into the shipped registries)
+  bool haveB[kMaxProcs], haveX[kMaxProcs];
+  bool haveBm = false, haveXm = false;
+  Kind ckind[kMaxClients];
+  int czone[kMaxClients];
+  bool saved[kMaxStore];
+  int savedZone[kMaxStore]; Kind savedKind[kMaxStore];
+  int64_t lastE = 0; int lastY = 2020;
+  explicit Gen(uint64_t seed) : rng(seed) {
+    for (int i = 0; i < kMaxProcs; i++) haveB[i] = haveX[i] = false;
+    for (int i = 0; i < kMaxClients; i++) { ckind[i] = K_EMPTY; czone[i] = -1; }
+    for (int i = 0; i < kMaxStore; i++) { saved[i] = false; savedZone[i] = -1; savedKind[i] = K_EMPTY; }
+  }
+  void line(const std::string& s) { tr.lines.push_back(s); }
+
+  int pickZone(bool ext) {
+    int full = ext ? zonedbx::kZoneRegistrySize : zonedb::kZoneRegistrySize;
+    if (rng.chance(3, 10)) {
+      // bias to zones with several eras (rule changes inside 2000..2050)
+      for (int tries = 0; tries < 20; tries++) {
+        int z = (int)rng.below(full);
+        int ne = ext ? extended::ZoneInfoBroker(zonedbx::kZoneRegistry[z]).numEras()
+                     : basic::ZoneInfoBroker(zonedb::kZoneRegistry[z]).numEras();
+        if (ne >= 3) return z;
+      }
+    }
+    return (int)rng.below(full);
+  }
+  uint8_t drawPoison() {
+    static const uint8_t k[] = {0x00, 0xff, 0xa5, 0x5a, 0x01, 0x80};
+    return rng.chance(1, 4) ? (uint8_t)rng.below(256) : k[rng.below(6)];
+  }
+
+  void setupProcsAndMgrs() {
+    int nb = (int)rng.range(1, 2), nx = (int)rng.range(1, 2);
+    for (int i = 0; i < nb; i++) { line(fmt("PROC b %d", i)); haveB[i] = true; }
+    for (int i = 0; i < nx; i++) { line(fmt("PROC x %d", i)); haveX[i] = true; }
+    mgrLine(false, -1, false);
+    mgrLine(true, -1, false);
+  }
+  // registry: full, or a seeded subset that does / does not contain a given zone
+  void mgrLine(bool ext, int mustHave, bool mustLack) {
+    int size = (int)rng.range(1, 4);
+    std::string l = fmt("MGR %s size=%d", ext ? "x" : "b", size);
+    if (mix.restore && rng.chance(1, 2)) {
+      int n = (int)rng.range(0, 40);
+      l += fmt(" reg=sub seed=%llu n=%d order=%s", (unsigned long long)rng.below(1000000), n,
+          rng.chance(1, 2) ? "sorted" : "shuffled");
+      std::string with;
+      const std::vector<int>& zs = ext ? xz : bz;
+      for (size_t i = 0; i < zs.size(); i++) if (rng.chance(2, 3) && !(mustLack && zs[i] == mustHave)) with += fmt("%s%d", with.empty() ? "" : ",", zs[i]);
+      if (mustHave >= 0 && !mustLack) with += fmt("%s%d", with.empty() ? "" : ",", mustHave);
+      if (!with.empty()) l += " with=" + with;
+      if (mustLack && mustHave >= 0) l += fmt(" without=%d", mustHave);
+    } else {
+      l += " reg=full";
+    }
+    line(l);
+    (ext ? haveXm : haveBm) = true;
+    for (int i = 0; i < kMaxClients; i++) if (ckind[i] == (ext ? K_XMGR : K_BMGR)) ckind[i] = K_EMPTY;
+  }
+
+  void makeClient(int slot) {
+    unsigned r = (unsigned)rng.below(100);
+    if (mix.restore && r < 22) {
+      if (r < 14) {
+        static const int grid[] = {0, 60, -60, 330, -210, 345, 765, -720, 840, 960, -960, 1, -1, 7, 59, -481};
+        int sm = rng.chance(3, 4) ? grid[rng.below(16)] : (int)rng.range(-960, 960);
+        int dm = rng.chance(1, 2) ? 0 : (rng.chance(2, 3) ? 60 : (int)rng.range(-120, 120));
+        line(fmt("TZ %d manual %d %d", slot, sm, dm)); ckind[slot] = K_MANUAL;
+      } else if (r < 17) { line(fmt("TZ %d utc", slot)); ckind[slot] = K_MANUAL; }
+      else { line(fmt("TZ %d error", slot)); ckind[slot] = K_ERROR; }
+      czone[slot] = -1;
+      return;
+    }
+    if (r < 30 || (r < 60 && !mix.restore)) {
+      // direct-bound on a shared processor
+      bool ext = rng.chance(1, 2);
+      int p = (int)rng.below(2);
+      if (!(ext ? haveX[p] : haveB[p])) p = 0;
+      int z = (ext ? xz : bz)[rng.below((ext ? xz : bz).size())];
+      line(fmt("TZ %d %s %d proc=%d # %s", slot, ext ? "xdirect" : "bdirect", z, p, zoneName(ext ? K_XDIRECT : K_BDIRECT, shippedZone(ext, z))));
+      ckind[slot] = ext ? K_XDIRECT : K_BDIRECT; czone[slot] = z;
+    } else if (r < 90) {
+      bool ext = rng.chance(1, 2);
+      int z = (ext ? xz : bz)[rng.below((ext ? xz : bz).size())];
+      unsigned h = (unsigned)rng.below(10);
+      const char* how = h < 7 ? (ext ? "xmgr" : "bmgr") : (ext ? "xmgrid" : "bmgrid");
+      line(fmt("TZ %d %s %d # %s", slot, how, z, zoneName(ext ? K_XMGR : K_BMGR, shippedZone(ext, z))));
+      ckind[slot] = ext ? K_XMGR : K_BMGR; czone[slot] = z;
+    } else {
+      int o = (int)rng.below(kMaxClients);
+      if (ckind[o] == K_EMPTY) { makeClient(slot); return; }
+      line(fmt("TZ %d copy %d", slot, o));
+      ckind[slot] = ckind[o]; czone[slot] = czone[o];
+    }
+  }
+
+  int64_t drawEpoch(bool& oor) {
+    oor = false;
+    unsigned r = (unsigned)rng.below(100);
+    int64_t e;
+    if (r < 45) {        // any second of 1999..2050
+      e = rng.range(epochOfYearStart(1999), epochOfYearStart(2051) - 1);
+    } else if (r < 60) { // around a year boundary (the basic processor keys 1 Jan under the previous year)
+      int y = (int)rng.range(1999, 2051);
+      e = epochOfYearStart(y) + rng.range(-2 * 86400, 2 * 86400);
+    } else if (r < 72) { // the last argument +/- about one year
+      e = lastE + (rng.chance(1, 2) ? 1 : -1) * rng.range(360 * 86400, 370 * 86400);
+    } else if (r < 78) { // same year as before, another instant
+      e = epochOfYearStart(lastY) + rng.range(0, 365 * 86400 - 1);
+    } else if (r < 84) { // boundary years of the zone data
+      static const int ys[] = {1997, 1998, 1999, 2000, 2049, 2050, 2051, 2052};
+      e = epochOfYearStart(ys[rng.below(8)]) + rng.range(0, 365 * 86400 - 1);
+      oor = true;
+    } else if (r < 96) { // far outside the zone data
+      if (rng.chance(1, 2)) e = rng.range(epochOfYearStart(1932), epochOfYearStart(1998) - 1);
+      else e = rng.range(epochOfYearStart(2052), epochOfYearStart(2068) - 86400 * 30);
+      oor = true;
+    } else {
+      e = LocalDate::kInvalidEpochSeconds; oor = true;
+    }
+    if (mix.extremes && rng.chance(1, 12)) {
+      static const int64_t ex[] = {-2147483647LL, -2147483646LL, 2147483647LL, 2147483646LL, -2147483647LL + 1966080,
+          -2147483647LL + 1966079, 2147483647LL - 50400, -2145916800LL, 2145916799LL};
+      e = ex[rng.below(9)]; oor = true;
+    }
+    if (e < -2147483647LL + (mix.extremes ? 0 : 2000000)) e = -2147483647LL + 2000000;
+    if (e > 2147483647LL - (mix.extremes ? 0 : 100000)) e = 2147483647LL - 100000;
+    if (e != LocalDate::kInvalidEpochSeconds) { lastE = e; lastY = yearOfEpoch(e); }
+    return e;
+  }
+
+  std::string drawQuery(bool& oor) {
+    unsigned k = (unsigned)rng.below(100);
+    oor = false;
+    if (k < 20) return fmt("utc %lld", (long long)drawEpoch(oor));
+    if (k < 34) return fmt("delta %lld", (long long)drawEpoch(oor));
+    if (k < 50) return fmt("abbrev %lld", (long long)drawEpoch(oor));
+    if (k < 62) return fmt("zdt %lld", (long long)drawEpoch(oor));
+    if (k < 86) {
+      int64_t e = drawEpoch(oor);
+      int y, mo, d, h, mi, s;
+      if (e == LocalDate::kInvalidEpochSeconds) { y = 0; mo = 0; d = 0; h = 0; mi = 0; s = 0; }
+      else {
+        LocalDateTime ldt = LocalDateTime::forEpochSeconds((acetime_t)e);   // simulator-side use of a pure helper
+        y = ldt.year(); mo = ldt.month(); d = ldt.day(); h = ldt.hour(); mi = ldt.minute(); s = ldt.second();
+      }
+      if (rng.chance(1, 6)) { h = (int)rng.range(0, 3); mi = (int)rng.range(0, 59); }   // around typical gaps / overlaps
+      if (rng.chance(1, 14)) {   // invalid components
+        switch (rng.below(6)) {
+          case 0: mo = 0; break; case 1: mo = 13; break; case 2: d = 0; break; case 3: d = 32; break;
+          case 4: h = 24 + (int)rng.below(8); break; default: mi = 60 + (int)rng.below(8); break;
+        }
+        oor = true;
+      }
+      if (mix.extremes && rng.chance(1, 16)) { y = rng.chance(1, 2) ? (int)rng.range(1873, 1931) : (int)rng.range(2069, 2127); oor = true; }
+      return fmt("%s %d %d %d %d %d %d", rng.chance(1, 2) ? "odt" : "zdc", y, mo, d, h, mi, s);
+    }
+    if (k < 92) return "print";
+    if (k < 97) return "prints";
+    return "zid";
+  }
+
+  int liveClient() {
+    for (int tries = 0; tries < 16; tries++) { int c = (int)rng.below(kMaxClients); if (ckind[c] != K_EMPTY) return c; }
+    return 0;
+  }
+
+  Trace run(const std::string& profile) {
+    tr.profile = profile;
+    line(fmt("CFG TZ poison=%u", (unsigned)drawPoison()));
+    if (mix.clock) {
+      static const uint32_t kSync[] = {5, 60, 3600};
+      line(fmt("CFG CLOCK sync=%u init=%u tmo=%u ref=%s bak=1 boot=%llu refbase=%lld rtc=%lld", kSync[rng.below(3)],
+          (unsigned)rng.range(1, 5), (unsigned)(rng.chance(1, 2) ? 1000 : 50), rng.chance(1, 5) ? "none" : (rng.chance(1, 3) ? "same" : "distinct"),
+          (unsigned long long)(rng.chance(1, 2) ? 0xffffffffULL - rng.below(100000) : rng.below(0x100000000ULL)),
+          (long long)(rng.chance(1, 4) ? (int64_t)rng.range(-2000000000, 2000000000) : (int64_t)rng.range(0, 1500000000)),
+          (long long)rng.range(0, 1500000000)));
+      for (int k = 0; k < 12; k++) {
+        unsigned w = (unsigned)rng.below(10);
+        if (w < 5) line(fmt("REF %d VALID lat=%lld val=%lld", k, (long long)rng.range(0, 900), (long long)rng.range(-3, 3)));
+        else if (w < 7) line(fmt("REF %d INVALID lat=%lld", k, (long long)rng.range(0, 900)));
+        else if (w < 9) line(fmt("REF %d LOST", k));
+        else line(fmt("REF %d ABS lat=5 val=%lld", k, (long long)rng.range(-2000000000, 2000000000)));
+      }
+    }
+    int nz = (int)rng.range(1, 3);
+    for (int i = 0; i < nz; i++) { bz.push_back(pickZone(false)); xz.push_back(pickZone(true)); }
+    setupProcsAndMgrs();
+    int nc = (int)rng.range(2, 6);
+    for (int i = 0; i < nc; i++) makeClient(i);
+    int n = (int)rng.range(5, rng.chance(1, 4) ? 400 : 70);
+    bool faultFree = rng.chance(3, 10);   // no out-of-range queries at all in these runs
+    int wTot = mix.wQuery + mix.wRepeat + mix.wSetup + mix.wSave + mix.wRestore + mix.wReboot + mix.wManset + mix.wClock;
+    for (int i = 0; i < n; i++) {
+      int w = (int)rng.below(wTot);
+      if (w < mix.wQuery) {
+        bool oor = false;
+        std::string q;
+        for (int tries = 0; tries < 8; tries++) { q = drawQuery(oor); if (!(faultFree && oor)) break; }
+        if (faultFree && oor) continue;
+        int c = liveClient();
+        line(fmt("Q %d %s", c, q.c_str()));
+        if (oor) {
+          // failing queries are repeated back to back and interleaved with valid ones on the same processor
+          int reps = (int)rng.range(0, 3);
+          for (int k = 0; k < reps; k++) line(fmt("QR %d", rng.chance(3, 4) ? c : liveClient()));
+        }
+      } else if ((w -= mix.wQuery) < mix.wRepeat) {
+        line(fmt("QR %d", liveClient()));
+      } else if ((w -= mix.wRepeat) < mix.wSetup) {
+        unsigned r = (unsigned)rng.below(10);
+        if (r < 6) makeClient((int)rng.below(kMaxClients));
+        else if (r < 7) { int p = (int)rng.below(2); line(fmt("PROC %s %d", rng.chance(1, 2) ? "x" : "b", p)); /* clients of that processor are dropped */
+          for (int c = 0; c < kMaxClients; c++) if (ckind[c] == K_BDIRECT || ckind[c] == K_XDIRECT) { /* generator keeps them; ops on dropped slots are no-ops */ } }
+        else if (r < 9) mgrLine(rng.chance(1, 2), -1, false);
+        else { bool ext = rng.chance(1, 2); (ext ? xz : bz).push_back(pickZone(ext)); }
+      } else if ((w -= mix.wSetup) < mix.wSave) {
+        int c = liveClient(), k = (int)rng.below(kMaxStore);
+        line(fmt("SAVE %d %d", c, k));
+        saved[k] = true; savedZone[k] = czone[c]; savedKind[k] = ckind[c];
+        if (rng.chance(1, 2)) {
+          // reboots are biased to land between SAVE and RESTORE
+          line(fmt("REBOOT poison=%u", (unsigned)drawPoison()));
+          rebootAndRebuild(k);
+        }
+      } else if ((w -= mix.wSave) < mix.wRestore) {
+        int k = (int)rng.below(kMaxStore);
+        bool ext = rng.chance(1, 2);
+        if (saved[k] && isBasic(savedKind[k]) && rng.chance(2, 3)) ext = false;   // basic ids are a subset of extended ids
+        if (saved[k] && isExt(savedKind[k]) && rng.chance(2, 3)) ext = true;
+        bool oor;
+        int slot = (int)rng.below(kMaxClients);
+        // the comparison burst stays inside the zone data: out-of-range arguments are C08/C09's subject
+        (void)oor;
+        line(fmt("RESTORE %d %d via=%s e=%lld e2=%lld", k, slot, ext ? "x" : "b",
+            (long long)rng.range(epochOfYearStart(2000), epochOfYearStart(2050) - 1),
+            (long long)rng.range(epochOfYearStart(2000), epochOfYearStart(2050) - 1)));
+        if (saved[k]) { ckind[slot] = isZone(savedKind[k]) ? (ext ? K_XMGR : K_BMGR) : savedKind[k]; czone[slot] = -1; }
+      } else if ((w -= mix.wRestore) < mix.wReboot) {
+        line(fmt("REBOOT poison=%u", (unsigned)drawPoison()));
+        rebootAndRebuild(-1);
+      } else if ((w -= mix.wReboot) < mix.wManset) {
+        line(fmt("MANSET %d %s %d", liveClient(), rng.chance(1, 2) ? "std" : "dst", (int)rng.range(-960, 960)));
+      } else {
+        unsigned r = (unsigned)rng.below(100);
+        if (r < 30) line("LOOP");
+        else if (r < 50) line(fmt("ADV %lld", (long long)(rng.chance(1, 2) ? rng.range(1, 1500) : rng.range(1000, 70000))));
+        else if (r < 60) line("GET");
+        else if (r < 70) line(fmt("SET %lld", (long long)(rng.chance(1, 6) ? (int64_t)kInvalid : (rng.chance(1, 3) ? (int64_t)rng.range(-2147483647LL + 20000000, 2147483647LL - 20000000) : (int64_t)rng.range(0, 1600000000)))));
+        else if (r < 75) line("SETUP");
+        else if (r < 80) line(fmt("ADVDL %d", (int)rng.range(-1, 1)));
+        else {
+          static const char* ks[] = {"utc", "delta", "abbrev", "zdt"};
+          line(fmt("QN %d %s", liveClient(), ks[rng.below(4)]));
+        }
+      }
+    }
+    return tr;
+  }
+
+  void rebootAndRebuild(int savedSlot) {
+    for (int i = 0; i < kMaxProcs; i++) haveB[i] = haveX[i] = false;
+    for (int i = 0; i < kMaxClients; i++) { ckind[i] = K_EMPTY; czone[i] = -1; }
+    haveBm = haveXm = false;
+    int nb = (int)rng.range(1, 2), nx = (int)rng.range(1, 2);
+    for (int i = 0; i < nb; i++) { line(fmt("PROC b %d", i)); haveB[i] = true; }
+    for (int i = 0; i < nx; i++) { line(fmt("PROC x %d", i)); haveX[i] = true; }
+    // the registry after the reboot does / does not contain the saved id (fault registry_changed)
+    int must = -1; bool lack = false, sext = false;
+    if (savedSlot >= 0 && isZone(savedKind[savedSlot])) {
+      must = savedZone[savedSlot]; sext = isExt(savedKind[savedSlot]); lack = rng.chance(1, 3);
+    }
+    mgrLine(false, !sext ? must : -1, !sext && lack);
+    mgrLine(true, sext ? must : -1, sext && lack);
+    int nc = (int)rng.range(0, 4);
+    for (int i = 0; i < nc; i++) makeClient(i);
+    if (mix.clock && rng.chance(2, 3)) line("SETUP");
+  }
+};
+
+}  // namespace
+
+Trace genTz(const std::string& profile, uint64_t seed) {
+  Gen g(seed);
+  if (profile == "tz-history") {
+    g.mix.wQuery = 82; g.mix.wRepeat = 10; g.mix.wSetup = 8;
+  } else if (profile == "tz-restore") {
+    g.mix.restore = true;
+    g.mix.wQuery = 40; g.mix.wRepeat = 4; g.mix.wSetup = 12; g.mix.wSave = 16; g.mix.wRestore = 18; g.mix.wReboot = 4; g.mix.wManset = 6;
+  } else {
+    g.mix.restore = true; g.mix.clock = true; g.mix.extremes = true;
+    g.mix.wQuery = 50; g.mix.wRepeat = 10; g.mix.wSetup = 8; g.mix.wSave = 5; g.mix.wRestore = 6; g.mix.wReboot = 3; g.mix.wManset = 2; g.mix.wClock = 16;
+  }
+  return g.run(profile);
+}
+
+}  // namespace sim
